@@ -22,6 +22,7 @@ func init() {
 func runC15(c *core.Ctx) {
 	const cp = "pdf/graphics/content"
 	defer rulePublishedNotRecycled(c, cp, cp+"/builder")
+	defer ruleRealParse(c, "C15-R8", [2]string{cp, "parseNumber"})
 	ruleClassTable(c, "C15-R1", "pdf")
 	ruleClassTable(c, "C15-R1", cp)
 	c.Check("C15-R1", "class-tables-equal", "the object scanner and the content scanner classify every byte identically", func(o *core.Ob) {
